@@ -34,6 +34,7 @@ func init() {
 			c38FundListConserved(c)
 			c38PaidIsTheZeroedCounter(c)
 			c38SettledBeforeStakeChanges(c)
+			c38CheckpointIsNextEpoch(c)
 		},
 	})
 	register(&Rule{
@@ -55,6 +56,7 @@ func init() {
 			c39Counters(c)
 			c39LinksInPairs(c)
 			c39MarkerAndKeys(c)
+			c39JailOnlyStakedNodes(c)
 		},
 	})
 }
@@ -724,6 +726,7 @@ func c39LinksInPairs(c *core.Ctx) {
 	}
 	keyFields := map[string]bool{"FirstKey": true, "LastKey": true, "LastJailedKey": true, "NextKey": true, "PreviousKey": true}
 	n := 0
+	nSave := 0
 	for _, fn := range c.P.FuncsOfPkg(pkg) {
 		if fn.Signature.Recv() == nil || !strings.HasSuffix(fn.Signature.Recv().Type().String(), ".stakingSC") {
 			continue
@@ -767,6 +770,22 @@ func c39LinksInPairs(c *core.Ctx) {
 							if b, isB := call.Call.Value.(*ssa.Builtin); isB && b.Name() == "copy" && call.Call.Args[0] == ssa.Value(x) {
 								merge(origins(call.Call.Args[1], call))
 							}
+						}
+						// the buffer is stored into a field and filled through that field: copy(rec.F, src)
+						if st, ok := r.(*ssa.Store); ok && st.Val == ssa.Value(x) {
+							core.Instrs(fn, func(in2 ssa.Instruction) {
+								call, ok := in2.(*ssa.Call)
+								if !ok {
+									return
+								}
+								b, isB := call.Call.Value.(*ssa.Builtin)
+								if !isB || b.Name() != "copy" {
+									return
+								}
+								if u, isU := call.Call.Args[0].(*ssa.UnOp); isU && core.ExprKey(u.X) == core.ExprKey(st.Addr) {
+									merge(origins(call.Call.Args[1], call))
+								}
+							})
 						}
 					}
 				}
@@ -817,6 +836,42 @@ func c39LinksInPairs(c *core.Ctx) {
 			}
 			ks, _ := origins(call.Call.Args[1], in)
 			elems = append(elems, loaded{rec, ks, in})
+		}
+		// an element read from the list is written back under the key it was read from
+		for _, e := range elems {
+			core.Instrs(fn, func(in2 ssa.Instruction) {
+				cc := core.CallOf(in2)
+				if cc == nil || cc.StaticCallee() == nil || len(cc.Args) < 3 || cc.Args[2] != e.rec {
+					return
+				}
+				if nm := cc.StaticCallee().Name(); nm != "saveWaitingListElement" && nm != "saveElementAndList" {
+					return
+				}
+				ks, own := origins(cc.Args[1], in2)
+				same := len(ks) > 0 && len(ks) == len(e.keys)
+				for k2 := range ks {
+					if !e.keys[k2] {
+						same = false
+					}
+				}
+				if len(e.keys) == 0 {
+					same = true // loaded under a key that is not read from the list: nothing to compare
+				}
+				_ = own
+				nSave++
+				var want, got []string
+				for k2 := range e.keys {
+					want = append(want, k2)
+				}
+				for k2 := range ks {
+					got = append(got, k2)
+				}
+				sort.Strings(want)
+				sort.Strings(got)
+				c.Check(same, "C39/saved-under-the-key-it-was-loaded-from", fmt.Sprintf("%s/save#%d", fname(fn), nSave), in2.Pos(),
+					"the element is saved under the key it was loaded from ("+strings.Join(want, ",")+")",
+					fmt.Sprintf("an element loaded from the waiting list under a key read from %v is saved under a key read from %v (the element's own key when empty): the update lands in another element's slot - usually overwritten at once - and the element keeps its stale links", want, got))
+			})
 		}
 		writesField := func(rec ssa.Value, f *types.Var) bool {
 			hit := false
@@ -983,6 +1038,7 @@ func c39LinksInPairs(c *core.Ctx) {
 	}
 	c.Floor("C39/links-updated-in-pairs", 5)
 	c.Floor("C39/back-link-names-the-element", 3)
+	c.Floor("C39/saved-under-the-key-it-was-loaded-from", 3)
 }
 
 func containsVal(vs []ssa.Value, v ssa.Value) bool {
@@ -1110,4 +1166,89 @@ func c39MarkerAndKeys(c *core.Ctx) {
 		})
 	}
 	c.Floor("C39/raw-keys-not-prefixed-twice", 5)
+}
+
+// c38CheckpointIsNextEpoch: a delegator's checkpoint names the first epoch whose rewards it has NOT
+// yet been credited. Both places that set it - a new delegator's initialisation and the settling
+// routine - write "current epoch + 1": the two must agree, because rewards of the current epoch are
+// recorded against a total stake that a newcomer is not part of. An initialisation with the bare
+// current epoch pays the newcomer a share of rewards that were computed without its stake.
+func c38CheckpointIsNextEpoch(c *core.Ctx) {
+	const pkg = "vm/systemSmartContracts"
+	cp := c.P.Field(pkg, "DelegatorData", "RewardsCheckpoint")
+	if cp == nil {
+		return
+	}
+	n := 0
+	for _, fn := range c.P.FuncsOfPkg(pkg) {
+		if fn.Signature.Recv() == nil || !strings.HasSuffix(fn.Signature.Recv().Type().String(), ".delegation") {
+			continue
+		}
+		k := 0
+		core.Instrs(fn, func(in ssa.Instruction) {
+			st, ok := in.(*ssa.Store)
+			if !ok {
+				return
+			}
+			fa, ok := st.Addr.(*ssa.FieldAddr)
+			if !ok || core.FieldOfAddr(fa) != cp {
+				return
+			}
+			k++
+			n++
+			good := false
+			if add, isAdd := st.Val.(*ssa.BinOp); isAdd && add.Op == token.ADD {
+				one, isC := core.ConstInt(add.Y)
+				x := add.X
+				if !isC {
+					one, isC = core.ConstInt(add.X)
+					x = add.Y
+				}
+				if isC && one == 1 {
+					for y := range core.BackwardReachPure(x) {
+						if call, isCall := y.(*ssa.Call); isCall && call.Call.IsInvoke() && call.Call.Method.Name() == "CurrentEpoch" {
+							good = true
+						}
+					}
+				}
+			}
+			c.Check(good, "C38/checkpoint-is-the-next-epoch", fmt.Sprintf("%s/RewardsCheckpoint#%d", fname(fn), k), st.Pos(),
+				"RewardsCheckpoint = CurrentEpoch() + 1",
+				fname(fn)+" sets RewardsCheckpoint to "+core.ExprKey(st.Val)+", not to the current epoch + 1 as the other assignment does: a delegator initialised with the current epoch is paid a share of that epoch's rewards although they were recorded against a total stake without it (rewards paid exceed rewards received)")
+		})
+	}
+	c.Floor("C38/checkpoint-is-the-next-epoch", 2)
+}
+
+// c39JailOnlyStakedNodes: switchJailedWithWaiting hands the key to
+// moveFirstFromWaitingToStakedIfNeeded, whose "the key is itself in the queue" branch takes it out of
+// the list WITHOUT touching its registration record; the caller then saves the record it loaded
+// before. That is sound only because the caller refuses keys that are not staked: the call is
+// reached only where registrationData.Staked is known to be true. Without the guard a queued key is
+// removed from the list and saved with Waiting still set.
+func c39JailOnlyStakedNodes(c *core.Ctx) {
+	const pkg = "vm/systemSmartContracts"
+	n := 0
+	for _, fn := range c.P.FuncsOfPkg(pkg) {
+		if fn.Signature.Recv() == nil || !strings.HasSuffix(fn.Signature.Recv().Type().String(), ".stakingSC") {
+			continue
+		}
+		core.Instrs(fn, func(in ssa.Instruction) {
+			cc := core.CallOf(in)
+			if cc == nil || cc.StaticCallee() == nil || cc.StaticCallee().Name() != "moveFirstFromWaitingToStakedIfNeeded" {
+				return
+			}
+			n++
+			staked := false
+			for _, cd := range core.CondsAt(in.Block()) {
+				if _, f := core.FieldLoad(cd.V); f != nil && f.Name() == "Staked" && cd.Taken {
+					staked = true
+				}
+			}
+			c.Check(staked, "C39/jail-only-staked-nodes", fname(fn)+"/moveFirstFromWaitingToStakedIfNeeded", in.Pos(),
+				"reached only where the key's registration says Staked",
+				fname(fn)+" reaches moveFirstFromWaitingToStakedIfNeeded without the key being known as staked: for a key that is itself queued the helper removes it from the waiting list and the caller saves the registration it loaded before, Waiting still set - flagged waiting, not in the list")
+		})
+	}
+	c.Floor("C39/jail-only-staked-nodes", 1)
 }
